@@ -160,7 +160,8 @@ func (impl Implementation) Dtrevc3(side lapack.EVSide, howmny lapack.EVHowMany, 
 			panic(badLenSelected)
 		}
 		// Set m to the number of columns required to store the selected
-		// eigenvectors, and standardize the slice selected.
+		// eigenvectors. The slice selected is standardized only after all
+		// arguments have been checked.
 		// Each selected real eigenvector occupies one column and each
 		// selected complex eigenvector occupies two columns.
 		for j := 0; j < n; {
@@ -175,8 +176,6 @@ func (impl Implementation) Dtrevc3(side lapack.EVSide, howmny lapack.EVHowMany, 
 				// Diagonal 2×2 block corresponding to a
 				// complex eigenvalue.
 				if selected[j] || selected[j+1] {
-					selected[j] = true
-					selected[j+1] = false
 					m += 2
 				}
 				j += 2
@@ -211,6 +210,21 @@ func (impl Implementation) Dtrevc3(side lapack.EVSide, howmny lapack.EVHowMany, 
 		panic(badLdVR)
 	case rightv && len(vr) < (n-1)*ldvr+mm:
 		panic(shortVR)
+	}
+
+	if howmny == lapack.EVSelected {
+		// Standardize the slice selected.
+		for j := 0; j < n-1; {
+			if t[(j+1)*ldt+j] == 0 {
+				j++
+				continue
+			}
+			if selected[j] || selected[j+1] {
+				selected[j] = true
+				selected[j+1] = false
+			}
+			j += 2
+		}
 	}
 
 	// Use blocked version of back-transformation if sufficient workspace.
